@@ -1096,7 +1096,7 @@ impl DVec3 {
         // Cosine of the angle between the vectors [-1, 1], or NaN if either vector has a zero length
         let dot = self.dot(rhs) / (self_length * rhs_length);
         // If dot is close to 1 or -1, or is NaN the calculations for t1 and t2 break down
-        if math::abs(dot) < 1.0 - 3e-7 {
+        if math::abs(dot) < 1.0 - 5e-16 {
             // Angle between the vectors [0, +π]
             let theta = math::acos_approx(dot);
             // Sine of the angle between vectors [0, 1]
